@@ -37,6 +37,10 @@ KIND_T = {
                                              (C.CKA_UNWRAP_TEMPLATE, [(C.CKA_CLASS, C.CKO_SECRET_KEY), (C.CKA_LABEL, b"only-bytes")])]),
     "aes-tpl3": lambda tok, prv, lab: F.template("aes128", token=tok, private=prv, label=lab, ident=b"tpl3", extra=[(C.CKA_WRAP_TEMPLATE, [(C.CKA_LABEL, b"x"), (C.CKA_ALLOWED_MECHANISMS, mechlist([C.CKM_AES_CBC, C.CKM_AES_ECB]))]),
                                              (C.CKA_UNWRAP_TEMPLATE, [(C.CKA_ENCRYPT, True), (C.CKA_VALUE_LEN, 16)])]),
+    # every "lock" boolean away from its default (an object that may be neither destroyed nor copied) and a caller-supplied CKA_PUBLIC_KEY_INFO
+    "aes-locked": lambda tok, prv, lab: F.template("aes128", token=tok, private=prv, label=lab, ident=b"locked", extra=[(C.CKA_DESTROYABLE, False), (C.CKA_COPYABLE, False)]),
+    "data-nomod": lambda tok, prv, lab: F.template("data", token=tok, private=prv, label=lab) + [(C.CKA_MODIFIABLE, False)],
+    "rsapub-info": lambda tok, prv, lab: F.template("rsa1024_pub", token=tok, private=prv, label=lab, ident=b"id-" + lab, extra=[(C.CKA_VERIFY, True), (C.CKA_PUBLIC_KEY_INFO, bytes.fromhex("3003020101"))]),
     "rsa": lambda tok, prv, lab: F.template("rsa1024_priv", token=tok, private=prv, label=lab, ident=b"id-" + lab, extra=[(C.CKA_SIGN, True), (C.CKA_DECRYPT, True)]),
     "ecpub": lambda tok, prv, lab: F.template("ec256_pub", token=tok, private=prv, label=lab, ident=b"id-" + lab, extra=[(C.CKA_VERIFY, True)]),
     "cert": lambda tok, prv, lab: F.template("cert", token=tok, private=prv, label=lab, ident=b"id-" + lab),
@@ -45,7 +49,7 @@ KIND_T = {
 ALPHABET = []
 for _k in KIND_T:
     for _tok, _prv in ((1, 1), (1, 0), (0, 0)):
-        if _k in ("ecpub", "cert", "generic", "aes-rich", "aes-tpl2", "aes-tpl3") and (_tok, _prv) != (1, 1):
+        if _k in ("ecpub", "cert", "generic", "aes-rich", "aes-tpl2", "aes-tpl3", "aes-locked", "data-nomod", "rsapub-info") and (_tok, _prv) != (1, 1):
             continue
         ALPHABET.append(("create", _k, _tok, _prv))
 ALPHABET += [("bad-create", b) for b in ("unknown-attr", "no-value", "readonly-local", "badsize-bool", "class-mismatch", "keytype-mismatch", "empty-template", "wrong-value-len")]
